@@ -550,6 +550,57 @@ theorem atLine_fields (fs : List Field) (hw : ∀ f ∈ fs, f.WF) (z : Bytes) :
       rw [this, scan_skip _ _ (body_no_cr f hf)]
       simpa using ih hrest
 
+/-! ## structured request lines -/
+
+theorem findHttp_skip (l r : Bytes) (h : LF ∉ l) : findHttp (l ++ httpVer ++ r) = true := by
+  induction l with
+  | nil => simp [findHttp, httpVer, startsCI, httpLit, asciiLowerB]
+  | cons b tl ih =>
+    have hb : b ≠ LF := fun e => h (by simp [e])
+    have ht : LF ∉ tl := fun hm => h (List.mem_cons_of_mem _ hm)
+    simp only [List.cons_append, findHttp]
+    split
+    · rfl
+    · have := ih ht
+      simp only [List.append_assoc] at this ⊢
+      simp [hb, this]
+
+/-- a request line whose method is a token starting with three letters is recognised by the first regex -/
+theorem expected_of_request_line (a b c : UInt8) (m target r : Bytes)
+    (ha : isAlpha a = true) (hb : isAlpha b = true) (hc : isAlpha c = true)
+    (hm : ∀ x ∈ m, isTchar x = true) (ht : ∀ x ∈ target, x ≠ CR ∧ x ≠ LF) :
+    expected (requestLine (a :: b :: c :: m) target ++ r) = true := by
+  have hnl : LF ∉ m ++ 0x20 :: (target ++ [0x20]) := by
+    intro hmem
+    simp only [List.mem_append, List.mem_cons, List.mem_nil_iff, or_false] at hmem
+    rcases hmem with h | h | h | h
+    · exact (tchar_facts _ (hm _ h)).2.1 rfl
+    · exact absurd h (by decide)
+    · exact (ht _ h).2 rfl
+    · exact absurd h (by decide)
+  have hform : requestLine (a :: b :: c :: m) target ++ r
+      = a :: b :: c :: ((m ++ 0x20 :: (target ++ [0x20])) ++ httpVer ++ r) := by
+    simp [requestLine, List.append_assoc]
+  rw [hform]
+  cases hl : m ++ 0x20 :: (target ++ [0x20]) with
+  | nil => simp at hl
+  | cons x tl =>
+    rw [hl] at hnl
+    have hx : x ≠ LF := fun e => hnl (by simp [e])
+    have htl : LF ∉ tl := fun hmem => hnl (List.mem_cons_of_mem _ hmem)
+    simp only [List.cons_append, expected, ha, hb, hc, Bool.true_and, Bool.and_eq_true, bne_iff_ne, ne_eq]
+    exact ⟨hx, findHttp_skip tl r htl⟩
+
+theorem requestLine_no_cr (method target : Bytes) (hm : ∀ x ∈ method, isTchar x = true)
+    (ht : ∀ x ∈ target, x ≠ CR ∧ x ≠ LF) : CR ∉ requestLine method target := by
+  intro hmem
+  simp only [requestLine, httpVer, List.mem_append, List.mem_cons, List.mem_nil_iff, or_false] at hmem
+  rcases hmem with h | h | h | h
+  · exact (tchar_facts _ (hm _ h)).1 rfl
+  · exact absurd h (by decide)
+  · exact (ht _ h).1 rfl
+  · revert h; decide
+
 /-! ## ClientHello extraction and the verdict under more bytes (TCP) -/
 
 theorem startsLike_append (dtls : Bool) (p q : Bytes) (h : 3 ≤ p.length) :
@@ -1016,5 +1067,333 @@ theorem run_inv {Pat : Type} (E : Env Pat) (c : NCfg Pat) (s : Sess) (hist evs :
 theorem init_inv (tcp connected : Bool) : Inv (Sess.init tcp connected) [] := by
   unfold Inv Sess.init
   simp [recvFrom]
+
+/-! ## through the closing events: admissible histories -/
+
+/-- what the environment (server.py's read loops) can deliver in state `s`: data and EOF only from a connection that is
+    still readable, a connect result only while one is awaited. For UDP, an association that ends before the relay is
+    active leaves nowhere to relay to (`UDPLayer.done` swallows later datagrams, code and model alike): such histories
+    are outside the stream-equality theorem. -/
+def Adm (s : Sess) : Ev → Prop
+  | .dataC _ => s.client.canRead = true
+  | .dataS _ => s.server.canRead = true
+  | .closeC => s.client.canRead = true ∧ (s.tcp = true ∨ s.phase ≠ .connecting)
+  | .closeS => s.server.canRead = true ∧ (s.tcp = true ∨ s.phase ≠ .undecided)
+  | .connOk => s.phase = .connecting
+  | .connErr => s.phase = .connecting
+
+def AdmRun {Pat : Type} (E : Env Pat) (c : NCfg Pat) : Sess → List Ev → Prop
+  | _, [] => True
+  | s, e :: es => Adm s e ∧ AdmRun E c (step E c s e) es
+
+/-- under which the replay of buffered events cannot finish the relay -/
+def Guard (s : Sess) (q : List Ev) : Prop :=
+  (s.tcp = true ∧ s.client.canRead = true ∧ Ev.closeC ∉ q) ∨
+  (s.tcp = true ∧ s.server.canRead = true ∧ Ev.closeS ∉ q) ∨
+  (s.tcp = false ∧ Ev.closeC ∉ q ∧ Ev.closeS ∉ q)
+
+theorem relayEv_tcp (s : Sess) (e : Ev) : (relayEv s e).tcp = s.tcp := by
+  cases e <;> simp only [relayEv, Sess.emit] <;> (repeat' split) <;> rfl
+
+theorem relayEv_guard (s : Sess) (e : Ev) (q : List Ev) (hp : s.phase = .relay) (hg : Guard s (e :: q)) :
+    (relayEv s e).phase = .relay ∧ Guard (relayEv s e) q := by
+  rcases hg with ⟨ht, hr, hn⟩ | ⟨ht, hr, hn⟩ | ⟨ht, hn1, hn2⟩
+  · have hq : Ev.closeC ∉ q := fun h => hn (List.mem_cons_of_mem _ h)
+    cases e with
+    | dataC d => exact ⟨by simp [relayEv, Sess.emit, hp], Or.inl ⟨ht, hr, hq⟩⟩
+    | dataS d => exact ⟨by simp [relayEv, Sess.emit, hp], Or.inl ⟨ht, hr, hq⟩⟩
+    | closeC => exact absurd (List.mem_cons_self) hn
+    | closeS =>
+      simp only [relayEv, ht, if_true, hr, Bool.not_true, Bool.false_and, Bool.false_eq_true, if_false]
+      exact ⟨hp, Or.inl ⟨ht, by simp [applyClose, hr], hq⟩⟩
+    | connOk => exact ⟨hp, Or.inl ⟨ht, hr, hq⟩⟩
+    | connErr => exact ⟨hp, Or.inl ⟨ht, hr, hq⟩⟩
+  · have hq : Ev.closeS ∉ q := fun h => hn (List.mem_cons_of_mem _ h)
+    cases e with
+    | dataC d => exact ⟨by simp [relayEv, Sess.emit, hp], Or.inr (Or.inl ⟨ht, hr, hq⟩)⟩
+    | dataS d => exact ⟨by simp [relayEv, Sess.emit, hp], Or.inr (Or.inl ⟨ht, hr, hq⟩)⟩
+    | closeS => exact absurd (List.mem_cons_self) hn
+    | closeC =>
+      simp only [relayEv, ht, if_true, hr, Bool.not_true, Bool.and_false, Bool.false_eq_true, if_false]
+      exact ⟨hp, Or.inr (Or.inl ⟨ht, by simp [applyClose, hr], hq⟩)⟩
+    | connOk => exact ⟨hp, Or.inr (Or.inl ⟨ht, hr, hq⟩)⟩
+    | connErr => exact ⟨hp, Or.inr (Or.inl ⟨ht, hr, hq⟩)⟩
+  · have hq1 : Ev.closeC ∉ q := fun h => hn1 (List.mem_cons_of_mem _ h)
+    have hq2 : Ev.closeS ∉ q := fun h => hn2 (List.mem_cons_of_mem _ h)
+    cases e with
+    | dataC d => exact ⟨by simp [relayEv, Sess.emit, hp], Or.inr (Or.inr ⟨ht, hq1, hq2⟩)⟩
+    | dataS d => exact ⟨by simp [relayEv, Sess.emit, hp], Or.inr (Or.inr ⟨ht, hq1, hq2⟩)⟩
+    | closeC => exact absurd (List.mem_cons_self) hn1
+    | closeS => exact absurd (List.mem_cons_self) hn2
+    | connOk => exact ⟨hp, Or.inr (Or.inr ⟨ht, hq1, hq2⟩)⟩
+    | connErr => exact ⟨hp, Or.inr (Or.inr ⟨ht, hq1, hq2⟩)⟩
+
+/-- a guarded replay never finishes the relay: every buffered event is handed on -/
+theorem relayAll_guard (s : Sess) (q : List Ev) (hp : s.phase = .relay) (hg : Guard s q) :
+    (relayAll s q).phase = .relay := by
+  induction q generalizing s with
+  | nil => simpa [relayAll] using hp
+  | cons e es ih =>
+    simp only [relayAll, hp, if_true]
+    obtain ⟨h1, h2⟩ := relayEv_guard s e es hp hg
+    exact ih _ h1 h2
+
+/-- the relay finishes only when nothing can be read any more -/
+theorem relayEv_done (s : Sess) (e : Ev) (hp : s.phase = .relay) (hd : (relayEv s e).phase = .done)
+    (hc : e = .closeC → s.tcp = false → s.client.canRead = false)
+    (hs : e = .closeS → s.tcp = false → s.server.canRead = false) :
+    (relayEv s e).client.canRead = false ∧ (relayEv s e).server.canRead = false := by
+  cases e with
+  | dataC d => simp [relayEv, Sess.emit, hp] at hd
+  | dataS d => simp [relayEv, Sess.emit, hp] at hd
+  | connOk => simp [relayEv, hp] at hd
+  | connErr => simp [relayEv, hp] at hd
+  | closeC =>
+    cases ht : s.tcp with
+    | true =>
+      simp only [relayEv, ht, if_true] at hd ⊢
+      split at hd
+      · rename_i h; simp [h]
+      · simp [Sess.emit, hp] at hd
+    | false =>
+      have := hc rfl ht
+      simp [relayEv, ht, Sess.emit, this]
+  | closeS =>
+    cases ht : s.tcp with
+    | true =>
+      simp only [relayEv, ht, if_true] at hd ⊢
+      split at hd
+      · rename_i h; simp [h]
+      · simp [Sess.emit, hp] at hd
+    | false =>
+      have := hs rfl ht
+      simp [relayEv, ht, Sess.emit, this]
+
+theorem noteEv_tcp (s : Sess) (e : Ev) : (noteEv s e).tcp = s.tcp := by cases e <;> rfl
+
+/-- the part of the invariant that needs admissibility -/
+def Inv2 (s : Sess) (hist : List Ev) : Prop :=
+  match s.phase with
+  | .undecided => s.client.canRead = true ∧ Ev.closeC ∉ s.queue ∧
+      (s.connected = false → s.server.canRead = false ∧ Ev.closeS ∉ s.queue) ∧
+      (s.tcp = false → Ev.closeS ∉ s.queue)
+  | .connecting => s.connected = false ∧ s.server.canRead = false ∧ Ev.closeS ∉ s.queue ∧
+      (s.tcp = false → Ev.closeC ∉ s.queue)
+  | .done => s.client.canRead = false ∧ s.server.canRead = false ∧ ∀ b, sentTo b s.out = recvFrom b hist
+  | _ => True
+
+theorem relayAll_cfg (s : Sess) (q : List Ev) (hp : s.phase = .relay) :
+    (relayAll s q).tcp = s.tcp := (relayAll_spec s q hp).2.1.tcp
+
+theorem inv2_of_relay (t : Sess) (hist : List Ev) (h : t.phase = .relay) : Inv2 t hist := by
+  unfold Inv2; rw [h]; trivial
+
+theorem startRelay_inv2 (s : Sess) (hist : List Ev) (hp : s.phase = .undecided) (h2 : Inv2 s hist) :
+    Inv2 (startRelay s s.queue) hist := by
+  unfold Inv2 at h2; rw [hp] at h2
+  obtain ⟨hcr, hncc, hconn, hudp⟩ := h2
+  cases hc : s.connected with
+  | true =>
+    have : startRelay s s.queue
+        = relayAll { s.emit (if s.flow = true then [Out.hook 0] else []) with phase := Phase.relay, queue := [] } s.queue := by
+      simp [startRelay, Sess.emit, hc]
+    rw [this]
+    apply inv2_of_relay
+    apply relayAll_guard _ _ rfl
+    cases ht : s.tcp with
+    | true => exact Or.inl ⟨ht, hcr, hncc⟩
+    | false => exact Or.inr (Or.inr ⟨ht, hncc, hudp ht⟩)
+  | false =>
+    have : startRelay s s.queue
+        = { (s.emit (if s.flow = true then [Out.hook 0] else [])).emit [Out.openServer] with phase := Phase.connecting, queue := s.queue } := by
+      simp [startRelay, Sess.emit, hc]
+    rw [this]
+    unfold Inv2
+    exact ⟨hc, (hconn hc).1, (hconn hc).2, fun _ => hncc⟩
+
+theorem askNL_inv2 {Pat : Type} (E : Env Pat) (c : NCfg Pat) (s : Sess) (hist : List Ev)
+    (hp : s.phase = .undecided) (h2 : Inv2 s hist) : Inv2 (askNL E c s) hist := by
+  unfold askNL
+  cases hn : nextLayer E c s.dc s.ds with
+  | needMore => exact h2
+  | ok st =>
+    simp only
+    split
+    · rename_i ig
+      apply startRelay_inv2 { s with stack := [LK.tcp ig], flow := !ig } hist hp
+      unfold Inv2 at h2 ⊢; rw [hp] at h2; simpa [hp] using h2
+    · rename_i ig
+      apply startRelay_inv2 { s with stack := [LK.udp ig], flow := !ig } hist hp
+      unfold Inv2 at h2 ⊢; rw [hp] at h2; simpa [hp] using h2
+    · unfold Inv2; trivial
+
+theorem step_inv2 {Pat : Type} (E : Env Pat) (c : NCfg Pat) (s : Sess) (hist : List Ev) (e : Ev)
+    (hI : Inv s hist) (h2 : Inv2 s hist) (ha : Adm s e) : Inv2 (step E c s e) (hist ++ [e]) := by
+  obtain ⟨nph, nout, nq, ndc, nds, nstk, nflow, nconn⟩ := noteEv_same s e
+  have ntcp := noteEv_tcp s e
+  unfold step
+  simp only [nph]
+  cases hp : s.phase with
+  | undecided =>
+    unfold Inv2 at h2; rw [hp] at h2
+    obtain ⟨hcr, hncc, hconn, hudp⟩ := h2
+    cases e with
+    | dataC d =>
+      apply askNL_inv2 E c _ _ (by simp [nph, hp])
+      unfold Inv2; simp only [nph, hp, nq, nconn, ntcp]
+      refine ⟨by simpa [noteEv] using hcr, by simpa using hncc, ?_, ?_⟩
+      · intro h; exact ⟨by simpa [noteEv] using (hconn h).1, by simpa using (hconn h).2⟩
+      · intro h; simpa using hudp h
+    | dataS d =>
+      apply askNL_inv2 E c _ _ (by simp [nph, hp])
+      unfold Inv2; simp only [nph, hp, nq, nconn, ntcp]
+      refine ⟨by simpa [noteEv] using hcr, by simpa using hncc, ?_, ?_⟩
+      · intro h; exact ⟨by simpa [noteEv] using (hconn h).1, by simpa using (hconn h).2⟩
+      · intro h; simpa using hudp h
+    | closeC => unfold Inv2; trivial
+    | closeS =>
+      simp only [Adm, hp] at ha
+      unfold Inv2; simp only [nph, hp, nq, nconn, ntcp]
+      refine ⟨by simpa [noteEv] using hcr, by simpa using hncc, ?_, ?_⟩
+      · intro h; rw [(hconn h).1] at ha; exact absurd ha.1 (by simp)
+      · intro h; rcases ha.2 with h' | h'
+        · rw [h] at h'; cases h'
+        · exact absurd rfl h'
+    | connOk => simp only [Adm, hp] at ha; cases ha
+    | connErr => simp only [Adm, hp] at ha; cases ha
+  | connecting =>
+    unfold Inv2 at h2; rw [hp] at h2
+    obtain ⟨hconn, hsr, hncs, hudp⟩ := h2
+    cases e with
+    | connOk =>
+      simp only
+      apply inv2_of_relay
+      apply relayAll_guard _ _ rfl
+      rw [nq]
+      cases ht : s.tcp with
+      | true => exact Or.inr (Or.inl ⟨by rw [← ht]; exact ntcp, rfl, hncs⟩)
+      | false => exact Or.inr (Or.inr ⟨by rw [← ht]; exact ntcp, hudp ht, hncs⟩)
+    | connErr => unfold Inv2; trivial
+    | dataC d =>
+      unfold Inv2; simp only [nph, hp, nq, nconn, ntcp]
+      exact ⟨hconn, by simpa [noteEv] using hsr, by simpa using hncs, fun h => by simpa using hudp h⟩
+    | dataS d =>
+      simp only [Adm] at ha; rw [hsr] at ha; cases ha
+    | closeC =>
+      simp only [Adm, hp] at ha
+      unfold Inv2; simp only [nph, hp, nq, nconn, ntcp]
+      refine ⟨hconn, by simpa [noteEv] using hsr, by simpa using hncs, ?_⟩
+      intro h; rcases ha.2 with h' | h'
+      · rw [h] at h'; cases h'
+      · exact absurd rfl h'
+    | closeS =>
+      simp only [Adm] at ha; rw [hsr] at ha; exact absurd ha.1 (by simp)
+  | relay =>
+    simp only
+    unfold MitmVerif.C19.Inv at hI; rw [hp] at hI
+    obtain ⟨_, _, hs⟩ := hI
+    obtain ⟨h1, _, h3, _⟩ := relayEv_spec (noteEv s e) e (by rw [nph, hp])
+    rcases h1 with h1 | h1
+    · unfold Inv2; rw [h1]; trivial
+    · have hd := relayEv_done (noteEv s e) e (by rw [nph, hp]) h1
+        (by intro he ht; subst he; rw [ntcp] at ht; simp [noteEv, ht])
+        (by intro he ht; subst he; rw [ntcp] at ht; simp [noteEv, ht])
+      unfold Inv2; rw [h1]
+      refine ⟨hd.1, hd.2, ?_⟩
+      intro b
+      rw [h3 b, nout, hs b, recvFrom_append]
+  | done =>
+    unfold Inv2 at h2; rw [hp] at h2
+    obtain ⟨hc, hsv, hs⟩ := h2
+    cases e with
+    | dataC d => simp only [Adm] at ha; rw [hc] at ha; cases ha
+    | dataS d => simp only [Adm] at ha; rw [hsv] at ha; cases ha
+    | closeC => simp only [Adm] at ha; rw [hc] at ha; exact absurd ha.1 (by simp)
+    | closeS => simp only [Adm] at ha; rw [hsv] at ha; exact absurd ha.1 (by simp)
+    | connOk => simp only [Adm, hp] at ha; cases ha
+    | connErr => simp only [Adm, hp] at ha; cases ha
+  | failed => unfold Inv2; simp only [nph, hp]
+  | intercepted => unfold Inv2; simp only [nph, hp]
+  | aborted => unfold Inv2; simp only [nph, hp]
+
+theorem run_inv2 {Pat : Type} (E : Env Pat) (c : NCfg Pat) (s : Sess) (hist evs : List Ev)
+    (hI : Inv s hist) (h2 : Inv2 s hist) (ha : AdmRun E c s evs) :
+    Inv (run E c s evs) (hist ++ evs) ∧ Inv2 (run E c s evs) (hist ++ evs) := by
+  induction evs generalizing s hist with
+  | nil => simpa [run] using ⟨hI, h2⟩
+  | cons e es ih =>
+    obtain ⟨ha1, ha2⟩ := ha
+    have := ih (step E c s e) (hist ++ [e]) (step_inv E c s hist e hI) (step_inv2 E c s hist e hI h2 ha1) ha2
+    simpa [run, List.append_assoc] using this
+
+theorem init_inv2 (tcp connected : Bool) : Inv2 (Sess.init tcp connected) [] := by
+  unfold Inv2 Sess.init
+  simp
+
+/-! ## datagram transports -/
+
+theorem startsLike_length (dtls : Bool) (p : Bytes) (h : C13.startsLike dtls p = true) : 3 ≤ p.length := by
+  match p, h with
+  | a :: b :: c :: r, _ => simp
+
+theorem startsLikeQuic_of_dtls (d : Bytes) (port : Option Nat) (h : C13.startsLike true d = true) :
+    startsLikeQuic d port = false := by
+  unfold startsLikeQuic
+  split
+  · rfl
+  · simp [h]
+
+theorem clientHello_append_dtls {Pat : Type} (E : Env Pat) (port : Option Nat) (p q : Bytes) (r : Option Bytes)
+    (hd : C13.startsLike true p = true) (h : clientHello E false port p = .ok r) :
+    clientHello E false port (p ++ q) = .ok r := by
+  have h3 := startsLike_length true p hd
+  have hd' : C13.startsLike true (p ++ q) = true := by rw [startsLike_append true p q h3]; exact hd
+  unfold clientHello at h ⊢
+  simp only [Bool.false_eq_true, if_false, startsLikeQuic_of_dtls p port hd, startsLikeQuic_of_dtls (p ++ q) port hd',
+    hd, hd', if_true] at h ⊢
+  have hne : C13.parse true p ≠ .incomplete := by
+    intro e; rw [e] at h; cases h
+  rw [MitmVerif.Props.C13.prefix_stable true p q hne]
+  exact h
+
+theorem ignoreConnection_append_dtls {Pat : Type} (E : Env Pat) (c : Cfg Pat) (p q ds : Bytes) (b : Bool)
+    (hudp : c.tcp = false) (hd : C13.startsLike true p = true)
+    (h : ignoreConnection E c p ds = .ok b) : ignoreConnection E c (p ++ q) ds = .ok b := by
+  unfold ignoreConnection at h ⊢
+  by_cases h1 : (c.ignorePats.isEmpty && c.allowPats.isEmpty) = true
+  · simpa [h1] using h
+  · simp only [h1] at h ⊢
+    by_cases h2 : exempt c = true
+    · simpa [h2] using h
+    · simp only [h2] at h ⊢
+      have hc : ∀ hs, candidates E c p ds = .ok hs → candidates E c (p ++ q) ds = .ok hs := by
+        intro hs hcand
+        unfold candidates at hcand ⊢
+        cases ha : c.address with
+        | none => simpa [ha] using hcand
+        | some hp' =>
+          obtain ⟨host, port⟩ := hp'
+          simp only [ha, hudp, hostHeader, Bool.not_false, Bool.true_or, if_true] at hcand ⊢
+          cases hch : clientHello E false (some port) p with
+          | needMore => simp [hch] at hcand
+          | ok sni =>
+            rw [clientHello_append_dtls E (some port) p q sni hd hch]
+            simpa [hch] using hcand
+      cases hcs : candidates E c p ds with
+      | needMore => simp [hcs] at h
+      | ok hs =>
+        rw [hc hs hcs]
+        simpa [hcs] using h
+
+/-- datagrams (or segments) after the deciding one are never consulted -/
+theorem askSegs_append {β : Type} (f : Bytes → Res β) (acc : Bytes) (segs more : List Bytes) (p : Bytes)
+    (h : decidingPrefix f acc segs = some p) : askSegs f acc (segs ++ more) = f p := by
+  induction segs generalizing acc with
+  | nil => simp [decidingPrefix] at h
+  | cons s ss ih =>
+    simp only [decidingPrefix, askSegs, List.cons_append] at h ⊢
+    cases hf : f (acc ++ s) with
+    | needMore => simp only [hf] at h ⊢; exact ih (acc ++ s) h
+    | ok b => simp only [hf] at h ⊢; cases h; exact hf.symm
 
 end MitmVerif.C19
